@@ -283,7 +283,7 @@ func runSend(c SendCase) *evid.Failure {
 	deadline := time.Now().Add(20 * time.Second)
 	lastLen := -1
 	for time.Now().Before(deadline) {
-		fr, ok := p.Next(1500 * time.Millisecond)
+		fr, ok := p.Next(700 * time.Millisecond)
 		if !ok {
 			if finSeen && int(edge) == c.Data {
 				break
@@ -378,6 +378,9 @@ func runSend(c SendCase) *evid.Failure {
 			p.Ack()
 			p.Ack()
 			p.Ack()
+		}
+		if finSeen && int(edge) == c.Data && ackTo == edge {
+			break // everything including the FIN is acknowledged
 		}
 	}
 	if c.PlaceISS && p.IRS == c.StackISS {
